@@ -46,6 +46,24 @@ def programs(tier, seed, small):
         q["steps"] = q["steps"] + [{"op": "prove"}, {"op": "new", "kind": "pub", "ty": "int", "v": 2}, {"op": "new", "kind": "priv", "ty": "int", "v": 3},
                                    {"op": "bin", "name": "mul", "a": {"r": nreg + 1}, "b": {"r": nreg + 2}}, {"op": "meth", "name": "val", "a": {"r": nreg + 3}}]
         progs.append(q)
+    # operands that differ by a multiple of the prime: non-zero as integers, zero in the field.  Zero tests / inequality assertions /
+    # division need an inverse that does not exist: the call must refuse (whatever it does, the files must stay satisfied)
+    pp = 251 if small else P_BN
+    for nm, mk in (("eq", lambda a, b: {"op": "bin", "name": "eq", "a": a, "b": b}), ("ne", lambda a, b: {"op": "bin", "name": "ne", "a": a, "b": b}),
+                   ("assert_ne", lambda a, b: {"op": "meth", "name": "assert_ne", "a": a, "args": [b]}),
+                   ("sub_nonzero", lambda a, b: {"op": "meth", "name": "assert_nonzero", "a": a})):
+        for k, (x, y) in enumerate(((pp + 5, 5), (5, 5 - pp), (2 * pp, 0))):
+            for mode in ("plain", "ign"):
+                B = gen.Builder("wrap/%s/%d/%s" % (nm, k, mode), mode, None, {"op": "wrap_" + nm})
+                ra, rb = B.opnd(("S", x)), B.opnd(("S", y))
+                if nm == "sub_nonzero":
+                    n0 = B.nreg
+                    B.add({"op": "bin", "name": "sub", "a": ra, "b": rb})
+                    B.add(mk({"r": n0}, None))
+                else:
+                    B.add(mk(ra, rb))
+                B.add({"op": "bin", "name": "mul", "a": ra, "b": rb})
+                progs.append(B.build())
     # straight families: one of each operator with mixed signs
     k = 0
     for op in gen.BIN_ARITH + gen.BIN_CMP:
